@@ -4,28 +4,26 @@
 
    Decided here (vm_compute):
      src_msgdec_tables_ok     tables_ok T: the names NA / NSAT / NSIG / NCELL of the source text are the tables', and all data fields pass fd_ok
-     src_msgdec_layouts_fail  the identities whose layout does NOT pass layout_ok (walk_ok ..): exactly ["4076_201"], and
-     src_msgdec_4076_201_why  of the four parts of walk_ok it fails no_idf038 only (its layout has the label "IDF038": the harmonic
-                              coefficient counts are computed with true division, which PyO does not model)
-     src_msgdec_layouts_ok    every other layout of RTCM_PAYLOADS_GET / _GET_MSM / _GET_IGS passes, and nests at most 4 deep
-                              (so a call-depth budget of 10 is enough for every message)
-     src_msgdec_passing       the identities that pass, listed
-   Final corollaries (no table hypotheses; `msg_ident po <> Some "4076_201"` is all that is asked of the message):
-     src_construct_guarded_tables   __init__ [payload; labelmsm] from the empty store, budget D >= 10  =  construct_g T po l
+     src_msgdec_layouts_ok    every layout of RTCM_PAYLOADS_GET / _GET_MSM / _GET_IGS except that of 4076_201 passes layout_ok (walk_ok ..)
+                              and nests at most 4 deep (so a call-depth budget of 10 is enough for every message).
+                              4076_201 does not pass: its layout has the label "IDF038" (the harmonic coefficient counts are computed
+                              with true division, which PyO does not model) -- run/SrcMsgDec_diag_inst.v shows that it is the only one
+                              and that this is the only part of walk_ok it fails.
+     src_msgdec_guard_ok      the conditions of Src/PyOMsgDecGuard.v (under which the guard of the guarded field step is never met and
+                              no repeat count is a str) hold of the tables and of every layout but that of 4076_201
+   FINAL COROLLARY (no table hypotheses; `msg_ident po <> Some "4076_201"` is all that is asked of the message):
+     src_construct_eq_tables        __init__ [payload; labelmsm] from the empty store, budget D >= 10  =  construct T po l
+                                    (Ok -> returns None, store_rel, frozen; Lib / Foreign -> raises that class; Unmodelled -> nothing)
+   and the intermediate forms (they do not use src_msgdec_guard_ok):
+     src_construct_guarded_tables   .. = construct_g T po l (the guarded constructor);  construct_g_refines_tables: it refines construct
      src_construct_model_tables     .. = construct T po l  wherever construct_g T po l is not "not modelled" (followed T po l = true)
-   and, as evidence that the guard inside construct_g is not in the way on real messages, five messages of the repository's test
-   data (1005, 1230, 1029 with its text fields, the MSM7 message 1097, the nested SSR message 1059) run through to the model's object. *)
+   Instances on real messages: run/SrcMsgDec_diag_inst.v (kept apart: they depend on the content of particular layouts). *)
 From Coq Require Import NArith ZArith List String Bool Lia.
 From Coq.Strings Require Import Byte.
-From PyRtcm Require Import Base.Bytes Model.Types Model.Message Src.PyO Src.ReaderEnv Src.MsgDecEnv Src.PyOMsgDecLemmas.
-From PyRtcm Require Src.PyOMsgDecWalkLemmas.
+From PyRtcm Require Import Base.Bytes Model.Types Model.Message Src.PyO Src.ReaderEnv Src.MsgDecEnv Src.PyOMsgDecLemmas Src.PyOMsgDecGuard.
 From PyRtcmGen Require Import Tables SrcOMsgDec SrcMsgDec_inst.
-From PyRtcmGen Require SrcMsgDecTop_inst.
 Import ListNotations.
 Open Scope string_scope.
-
-Module WL := PyRtcm.Src.PyOMsgDecWalkLemmas.
-Module S3 := PyRtcmGen.SrcMsgDecTop_inst.
 
 (* the one message type that is not covered *)
 Definition excluded : list string := ["4076_201"].
@@ -33,25 +31,8 @@ Definition excluded : list string := ["4076_201"].
 Theorem src_msgdec_tables_ok : tables_ok T = true.
 Proof. vm_compute. reflexivity. Qed.
 
-Theorem src_msgdec_layouts_fail : map fst (filter (fun kv => negb (layout_ok (snd kv))) (all_layouts T)) = ["4076_201"].
-Proof. vm_compute. reflexivity. Qed.
-Theorem src_msgdec_4076_201_why :
-  match assoc "4076_201" (t_igs T) with
-  | Some b => (WL.no_idf038 b, WL.nodup_labels b, WL.keys_ok srco_msgdec_reserved b, WL.labels_ok (name_ok srco_msgdec_reserved) b)
-              = (false, true, true, true)
-  | None => False
-  end.
-Proof. vm_compute. reflexivity. Qed.
-
 Theorem src_msgdec_layouts_ok : layouts_ok T excluded 4 = true.
 Proof. vm_compute. reflexivity. Qed.
-
-(* the identities with a layout that passes: all of RTCM_PAYLOADS_GET, _GET_MSM, _GET_IGS but 4076_201 *)
-Definition passing : list string := Eval vm_compute in map fst (filter (fun kv => layout_ok (snd kv)) (all_layouts T)).
-Theorem src_msgdec_passing :
-  map fst (filter (fun kv => layout_ok (snd kv)) (all_layouts T)) = passing /\
-  List.length passing = 151%nat /\ List.length (all_layouts T) = 152%nat.
-Proof. vm_compute. repeat split; reflexivity. Qed.
 
 Lemma not_excluded_iff po : msg_ident po <> Some "4076_201" -> not_excluded excluded po = true.
 Proof.
@@ -62,7 +43,7 @@ Qed.
 (* ================= the composed theorems at the real tables ================= *)
 Theorem src_construct_guarded_tables : forall wfuel D po l,
   (10 <= D)%nat -> msg_ident po <> Some "4076_201" ->
-  let r := rrun dob W (msgdec_ext T) wfuel srco_msgdec_prog D "__init__" [S3.payload_val po; VInt l] [] tt in
+  let r := rrun dob W (msgdec_ext T) wfuel srco_msgdec_prog D "__init__" [payload_arg po; VInt l] [] tt in
   match construct_g T po l with
   | Ok o' => exists a', r = (ROk VNone, (a', tt)) /\ store_rel a' o' /\ o_immutable o' = true
   | Lib e => exists a', r = (RExc (liberr_class e), (a', tt))
@@ -76,7 +57,7 @@ Qed.
 
 Theorem src_construct_model_tables : forall wfuel D po l,
   (10 <= D)%nat -> msg_ident po <> Some "4076_201" -> followed T po l = true ->
-  let r := rrun dob W (msgdec_ext T) wfuel srco_msgdec_prog D "__init__" [S3.payload_val po; VInt l] [] tt in
+  let r := rrun dob W (msgdec_ext T) wfuel srco_msgdec_prog D "__init__" [payload_arg po; VInt l] [] tt in
   match construct T po l with
   | Ok o' => exists a', r = (ROk VNone, (a', tt)) /\ store_rel a' o' /\ o_immutable o' = true
   | Lib e => exists a', r = (RExc (liberr_class e), (a', tt))
@@ -88,58 +69,54 @@ Proof.
   apply (src_construct_model_all T wfuel excluded 4 D po l src_msgdec_tables_ok src_msgdec_layouts_ok); [lia|apply not_excluded_iff, HN|exact HF].
 Qed.
 
+(* ================= the guard is never met at the real tables: the source against the model's constructor ================= *)
+(* the repeat-count keys ("+n" stripped) of all layouts but the excluded one *)
+Definition cks : list string :=
+  Eval vm_compute in
+  nodup string_dec (flat_map (fun kv => if existsb (String.eqb (fst kv)) excluded then [] else count_keys_body (snd kv)) (all_layouts T)).
+(* Src/PyOMsgDecGuard.v: no STR field key / NSAT / NSIG / DF394-6 / count key contains "_"; every field named like one of the latter is
+   an int field with resolution 0 or 1; NSAT / NSIG / NCELL are not STR field keys; and in every layout but 4076_201: the count keys are
+   in cks, no label IDF038, no label DF396 inside a repeated group *)
+Theorem src_msgdec_guard_ok : layouts_guard_ok T excluded cks = true.
+Proof. vm_compute. reflexivity. Qed.
+
+(* THE FINAL COROLLARY.  RTCMMessage(payload, labelmsm), as the current source text reads (translated, interpreted by PyO from the
+   empty attribute store, call-depth budget D >= 10, any while-budget), against Model.Message.construct at the real tables, for every
+   payload (None included) and label option, except messages of type 4076_201:
+     construct = Ok o'      -> __init__ returns None; the attribute store is o' (store_rel); o' is frozen
+     construct = Lib e      -> raises liberr_class e   (RTCMMessageError / RTCMTypeError ...)
+     construct = Foreign k  -> raises dec_exc_class k
+     construct = Unmodelled -> nothing claimed (the model itself has no answer: float used as an integer, repeat count > 2^20, ...) *)
+Theorem src_construct_eq_tables : forall wfuel D po l,
+  (10 <= D)%nat -> msg_ident po <> Some "4076_201" ->
+  let r := rrun dob W (msgdec_ext T) wfuel srco_msgdec_prog D "__init__" [payload_arg po; VInt l] [] tt in
+  match construct T po l with
+  | Ok o' => exists a', r = (ROk VNone, (a', tt)) /\ store_rel a' o' /\ o_immutable o' = true
+  | Lib e => exists a', r = (RExc (liberr_class e), (a', tt))
+  | Foreign k => exists a', r = (RExc (dec_exc_class k), (a', tt))
+  | Unmodelled _ => True
+  end.
+Proof.
+  intros wfuel D po l HD HN.
+  apply (src_construct_eq_all T wfuel excluded cks 4 D po l src_msgdec_tables_ok src_msgdec_layouts_ok src_msgdec_guard_ok);
+    [lia|apply not_excluded_iff, HN].
+Qed.
+
 (* and the refinement, at the real tables: what construct_g answers is what the model's constructor answers *)
 Theorem construct_g_refines_tables : forall po l, refines (construct_g T po l) (construct T po l).
 Proof. intros po l. apply construct_g_refines. Qed.
 
-(* ================= real messages run through ================= *)
-Definition accepted (p:bytes) (l:Z) : bool :=
-  not_excluded excluded (Some p) && match construct_g T (Some p) l with Ok _ => true | _ => false end.
-Lemma accepted_runs wfuel D p l : (10 <= D)%nat -> accepted p l = true ->
-  exists o a', construct T (Some p) l = Ok o /\
-    rrun dob W (msgdec_ext T) wfuel srco_msgdec_prog D "__init__" [VBytes p; VInt l] [] tt = (ROk VNone, (a', tt)) /\
-    store_rel a' o /\ o_immutable o = true.
-Proof.
-  intros HD HA. unfold accepted in HA. apply andb_true_iff in HA. destruct HA as [HN HA].
-  pose proof (src_construct_guarded_all T wfuel excluded 4 D (Some p) l src_msgdec_tables_ok src_msgdec_layouts_ok ltac:(lia) HN) as H.
-  cbv zeta in H. cbn [S3.payload_val] in H.
-  destruct (construct_g T (Some p) l) as [o| | |] eqn:E; try discriminate.
-  destruct H as [a' [H1 [H2 H3]]]. exists o, a'. split; [apply construct_g_ok, E|]. split; [exact H1|]. split; assumption.
-Qed.
-
-(* payloads (frame header and CRC stripped) of messages in /repo/tests/pygpsdata-*.log *)
-Definition p_1005 : bytes := [x3e; xd0; x00; x03; x8a; x58; xd9; x49; x3c; x87; x2f; x34; x10; x9d; x07; xd6; xaf; x48; x20]%list.
-Definition p_1230 : bytes := [x4c; xe0; x00; x80]%list.
-Definition p_1029 : bytes := [x40; x50; x00; xeb; xde; x74; xa7; x87; x07; x55; x6e; x6b; x6e; x6f; x77; x6e]%list.
-Definition p_1097 : bytes := [x44; x90; x00; x30; xab; x88; xa6; x00; x00; x01; x80; x04; x12; x00; x00; x00; x00; x20; x01; x00; x00; x7f; xe9; xea; x8b; x29; xca; x60; x00; x00; x50; x20; x2b; x5a; xf8; x85; x7e; x75; xef; xe0; x34; xe0; x1f; xfd; x01; xf4; x19; x7f; x89; x81; xa5; x4e; x3a; xa5; x32; x7e; x15; x68; x36; x65; xdc; x18; xdd; xef; x59; xfb; x2a; x9f; xf3; x3f; xfd; x16; x51; xfe; x24; x4b; xe8; xe5; x3b; xea; x9c; x5c; x1f; x97; x44; x20; xd2; xc9; xf6; xfb; xf5; xf7; xb8; x19; xfe; xd1; x61; xff; xc8; xc2; xaa; xaa; xaa; xaa; xaa; xaa; xaa; xaa; xaa; xaa; xaa; xaa; xa0; x05; xc1; x88; x52; x15; x85; x61; x58; x5a; x18; x85; x61; x78; x69; x52; xd2; x73; x83; xd7; x07; xc9; xc4; xb3; x80; xc5; x67; x8a; xd4; xe1; xd2; xc3; x96]%list.
-Definition p_1059 : bytes := [x42; x37; x1e; x30; x20; x80; x01; x8b; xc0; x88; x00; x0b; xa8; x03; xe0; x84; x00; x43; xd4; x07; x18; x62; x07; xea; x8a; xfd; xb4; x41; x03; xfe; x15; x7f; xda; x28; x80; x02; x0a; x80; x5d; x18; x40; xfc; xcd; x5f; xa0; x0e; x20; x00; xba; xa0; x19; x08; x10; x3f; x4a; x57; xe6; x64; x88; x1f; xc7; x2b; xf8; x52; x84; x0f; xd5; x15; xfa; xc1; x62; x00; x05; x0a; x00; xe4; xc1; x00; x06; x95; x01; x08; x68; x80; x03; x12; x80; x6a; x38; x40; x00; x71; x40; x16; x9e; x20; x00; x6e; xa0; x16; xd0; x10; x00; x8b; x50; x0b; xa8; x88; x00; x2b; x28; x06; xa4; x84; x00; x07; xd4; x01; xaa; x62; x00; x20; x0a; x03; x01; x41; x00; x07; x35; x00; x62; xb0; x80; x03; xf2; x80; x67; x5c; x40; x00; x7d; x40; x1b; x30; x20; x7e; x8a; xaf; xd8; xd9; x10; x3f; x40; x57; xe4; xed; x08; x1f; x8a; x2b; xf0; xf6; xc4; x0f; xda; x15; xfb; x33; x82; x00; x07; xea; x01; x2d; xd1; x00; x03; x45; x00; xa6; xf8; x80; x03; xf2; x80; x92; x80; x40; xfe; x09; x5f; xbf; x00]%list.
-
-Theorem src_msgdec_examples_accepted :
-  forallb (fun p => accepted p 1 && accepted p 2) [p_1005; p_1230; p_1029; p_1097; p_1059] = true.
-Proof. vm_compute. reflexivity. Qed.
-
-(* e.g. the MSM7 message, with RINEX signal labels (labelmsm = 1): the translated __init__ returns None and leaves the model's object *)
-Theorem src_construct_example_1097 : forall wfuel D, (10 <= D)%nat ->
-  exists o a', construct T (Some p_1097) 1 = Ok o /\
-    rrun dob W (msgdec_ext T) wfuel srco_msgdec_prog D "__init__" [VBytes p_1097; VInt 1] [] tt = (ROk VNone, (a', tt)) /\
-    store_rel a' o /\ o_immutable o = true.
-Proof.
-  intros wfuel D HD. apply accepted_runs; [exact HD|]. vm_compute. reflexivity.
-Qed.
-
 Goal True. idtac "PA:src_msgdec_tables_ok". Abort.
 Print Assumptions src_msgdec_tables_ok.
-Goal True. idtac "PA:src_msgdec_layouts_fail". Abort.
-Print Assumptions src_msgdec_layouts_fail.
 Goal True. idtac "PA:src_msgdec_layouts_ok". Abort.
 Print Assumptions src_msgdec_layouts_ok.
-Goal True. idtac "PA:src_msgdec_passing". Abort.
-Print Assumptions src_msgdec_passing.
 Goal True. idtac "PA:construct_g_refines_tables". Abort.
 Print Assumptions construct_g_refines_tables.
 Goal True. idtac "PA:src_construct_guarded_tables". Abort.
 Print Assumptions src_construct_guarded_tables.
 Goal True. idtac "PA:src_construct_model_tables". Abort.
 Print Assumptions src_construct_model_tables.
-Goal True. idtac "PA:src_construct_example_1097". Abort.
-Print Assumptions src_construct_example_1097.
+Goal True. idtac "PA:src_msgdec_guard_ok". Abort.
+Print Assumptions src_msgdec_guard_ok.
+Goal True. idtac "PA:src_construct_eq_tables". Abort.
+Print Assumptions src_construct_eq_tables.
